@@ -1691,6 +1691,10 @@ func (i *interpreter) symMinMax(cmp token.Token, args []value) value {
 		} else if ks, isSym := b.(symv); isSym {
 			k = ks.k
 		}
+		if ta.sort == SInt || tb.sort == SInt {
+			// integer-encoding mode: both branches as mathematical integers
+			ta, tb = toIntSort(ta), toIntSort(tb)
+		}
 		acc = mkInt(k, Ite(c, ta, tb))
 	}
 	return acc
